@@ -174,7 +174,7 @@ def guards_for(fx, f):
         if len(d) != 1 or d[0][1] == "T":
             continue
         rv = d[0][2]
-        if rv[0] != "bin" or rv[1] not in ("Lt", "Le", "Gt", "Ge"):
+        if rv[0] != "bin" or rv[1] not in ("Lt", "Le", "Gt", "Ge", "Eq", "Ne"):
             continue
         a, b = rv[2], rv[3]
         ca, cb = const_bound(fx, f, a), const_bound(fx, f, b)
@@ -184,6 +184,13 @@ def guards_for(fx, f):
         if false_t is None:
             continue
         op = rv[1]
+        if op in ("Eq", "Ne"):
+            # x == c: on the equal edge x < c + 1
+            for x_, c_ in ((a, cb), (b, ca)):
+                if c_ is not None and x_[0] in ("c", "m") and not x_[1][1] and const_bound(fx, f, x_) is None:
+                    eq_t, ne_t = (true_t, false_t) if op == "Eq" else (false_t, true_t)
+                    out.append((bi, root_of(f, x_[1][0]), c_ + 1, eq_t, ne_t))
+            continue
         if cb is not None and ca is None and a[0] in ("c", "m") and not a[1][1]:
             root = root_of(f, a[1][0])
             # x OP c
@@ -254,6 +261,51 @@ def range_checkers(fx):
             if fed:
                 out.setdefault(g.path, {})[pi] = MAXV[m.group(1)] + 1
     _range_checkers[id(fx)] = out
+    # derived checkers (`fn reserve_param_registers(n) { if n == 0 { return Ok(()) } window(n)?; Ok(()) }`): every path from the entry to
+    # the return either crosses the in-range edge of a guard on the parameter or leaves through `?` (FromResidual)
+    for _round in range(3):
+        grew = False
+        for g in fx.fns.values():
+            if g.closure or g.derived or len(g.blocks) > 600 or not g.file.startswith("src/"):
+                continue
+            ints = [pi for pi in range(1, g.argc + 1) if fx.tys(g.locals[pi]) in W and pi not in g.defs() and pi not in out.get(g.path, {})]
+            # a borrowed list whose length the function checks (`fn prologue(params: &[P]) { reserve(params.len())?; .. }`)
+            ints += [("len", pi) for pi in range(1, g.argc + 1) if fx.tys(g.locals[pi]).startswith("&") and ("[" in fx.tys(g.locals[pi]) or "Vec<" in fx.tys(g.locals[pi]))
+                     and pi not in g.defs() and ("len", pi) not in out.get(g.path, {})]
+            if not ints:
+                continue
+            if not any(t[1].get("d") in out for _, t in g.calls()):
+                continue
+            guards = guards_for(fx, g)
+            rets = [bi for bi, bl in enumerate(g.blocks) if bl["t"][0] == "ret"]
+            residual = {bi for bi, t in g.calls() if t[1].get("d", "").endswith("FromResidual<std::result::Result<std::convert::Infallible, E>>>::from_residual")
+                        or t[1].get("d", "").endswith("::from_residual")}
+            for pi in ints:
+                root = root_of(g, pi) if not isinstance(pi, tuple) else ("len", place_sig(g, [pi[1], ["*"]]))
+                for U in (256, 65536):
+                    cut = {(gb, ok_t) for (gb, groot, ub, ok_t, bad_t) in guards if groot == root and ub <= U and ok_t is not None and ok_t != bad_t}
+                    if not cut:
+                        continue
+                    seen, work, leak = set(), [0], False
+                    while work:
+                        x = work.pop()
+                        if x in seen:
+                            continue
+                        seen.add(x)
+                        if x in rets:
+                            leak = True
+                            break
+                        if x in residual:
+                            continue
+                        for y in g.succ(x):
+                            if (x, y) not in cut:
+                                work.append(y)
+                    if not leak:
+                        out.setdefault(g.path, {})[pi] = U
+                        grew = True
+                        break
+        if not grew:
+            break
     return out
 
 
@@ -312,6 +364,12 @@ def call_guards(fx, f):
                 continue
             for pi, ub in summ.items():
                 # parameter pi (1-based over all parameters, self included)
+                if isinstance(pi, tuple):
+                    if pi[1] - 1 < len(t[2]):
+                        a = t[2][pi[1] - 1]
+                        if a[0] in ("c", "m") and not a[1][1]:
+                            out.append((t2[4], ("len", place_sig(f, [a[1][0], ["*"]])), ub, ok_t, bad_t))
+                    continue
                 if pi - 1 < len(t[2]):
                     a = t[2][pi - 1]
                     if a[0] in ("c", "m") and not a[1][1]:
@@ -540,7 +598,7 @@ def run(tier):
     fx = F.load("A")
     ck.configs.append("A: cargo +nightly check --lib --features c-api")
     ck.rule("R1.narrowing", "every narrowing integer cast in src/compiler is range-guarded (or is a u32 instruction offset)", floor=22)
-    ck.rule("R2.narrow-arith", "every checked u8/u16 arithmetic in src/compiler is range-safe by a checked side condition", floor=8)
+    ck.rule("R2.narrow-arith", "every checked u8/u16 arithmetic in src/compiler is range-safe by a checked side condition", floor=3)
     per = {}
     for f, kind, a, b, root, ok, sp, stmt in sites(fx):
         if kind == "cast":
